@@ -202,6 +202,9 @@ class AddedDiagLinearOperator(SumLinearOperator):
         if isinstance(self._diag_tensor, ConstantDiagLinearOperator):
             evals_, evecs = self._linear_op._symeig(eigenvectors=eigenvectors)
             evals = evals_ + self._diag_tensor._diagonal()
+            if evecs is not None and evecs.shape[:-2] != evals.shape[:-1]:
+                # the diagonal may have a larger batch shape than the operator it is added to
+                evecs = evecs.expand(*evals.shape[:-1], *evecs.shape[-2:])
             return evals, evecs
         return super()._symeig(eigenvectors=eigenvectors)
 
